@@ -128,6 +128,13 @@ GROUPS += [
  dict(JS, name="json_unicode", entry="h_json_unicode", functions=["lib/chibi/json.c:json_read_string(\\uXXXX)", "lib/chibi/json.c:decode_useq", "sexp.c:sexp_utf8_encode_char"], instances=[{"name": "bmp"}]),
  dict(JS, name="json_surrogates", entry="h_json_surrogates", functions=["lib/chibi/json.c:json_read_string(surrogate pairs)", "lib/chibi/json.c:decode_useq", "sexp.c:sexp_utf8_encode_char"], instances=[{"name": "pairs"}]),
 ]
+GROUPS += [dict(JS, name="json_write_read", entry="h_json_write_read", unwind=20,
+                functions=["lib/chibi/json.c:json_write_string", "lib/chibi/json.c:json_read_string", "sexp.c:sexp_string_utf8_ref", "sexp.c:sexp_utf8_initial_byte_count"],
+                havoc_keep=JS["havoc_keep"] + ["json_write_string", "sexp_string_utf8_ref", "sexp_utf8_initial_byte_count", "sexp_buffered_write_string", "verif_snprintf", "verif_hex4"],
+                cbmc=["--drop-unused-functions", "--no-signed-overflow-check", "--max-field-sensitivity-array-size", "128", "--no-pointer-check"],      # `i < end` compares two string cursors (tagged immediates held in sexp variables): CBMC's pointer-relation check has no object for them and leaves everything after it UNKNOWN; the functional obligations are what this group decides
+                bound="strings of one character, every scalar value (UTF-8 width 1..4 enumerated, the code point symbolic)",
+                assumptions=JS["assumptions"] + ["sexp_buffered_write_string appends to the port buffer (contract stub); snprintf is modelled for the two \\u%04lX formats only"],
+                instances=[{"name": "w%d" % w, "defs": {"W": w}} for w in (1, 2, 3, 4)])]
 META = {
  "trusted_base": ["CBMC 6.11.0 front end, SAT back end, bit-precise IEEE-754 float model (round-to-nearest-even)"],
  "assumptions": ["quarter code 128 (-0.0) re-encodes as 0 (+0.0): numerically equal, excluded from the round-trip clause"],
